@@ -255,7 +255,7 @@ Ltac cfg_solve :=
   repeat first
     [ apply cfg_id | apply cfg_add_inline | apply cfg_emph | apply cfg_link_end | apply cfg_fence_prefix
     | apply cfg_block_add; repeat first [apply builder_id | apply builder_after | apply builder_before_all
-                                         | apply builder_after_all | apply builder_before
+                                         | apply builder_after_all | apply builder_before | apply builder_upd_last
                                          | apply (builder_comp r_after_all (r_before R_PARA)) ]
     | apply cfg_core_add; repeat first [apply builder_id | apply builder_after]
     | apply cfg_inline_remove | apply cfg_block_remove | apply cfg_core_remove ].
